@@ -155,7 +155,7 @@ mod vharness {
         w
     }
 
-    //@harness props=C04,C10,C01 strength=proof clause="DoThunk arm, thunk in ANY state: Done => exactly its value is pushed, no work scheduled (evaluated at most once); Pending => the thunk becomes InProgress, GotThunk(this thunk) is scheduled BELOW the work that computes it, at least one work item is scheduled, no value pushed yet; InProgress => InfiniteRecursion error. In every case the trace-length counter moves exactly as the pushed trace items do (invariant T)" timeout=900
+    //@harness props=C04,C10,C01 strength=proof clause="DoThunk arm, thunk in ANY state: Done => exactly its value is pushed, no work scheduled (evaluated at most once); Pending => the thunk becomes InProgress, GotThunk(this thunk) is scheduled BELOW the work that computes it, at least one work item is scheduled, no value pushed yet; InProgress => InfiniteRecursion error. In every case the trace-length counter moves exactly as the pushed trace items do (invariant T), and a thunk forced from within the arm (the inherited field of a `+:` field) is scheduled together with one counted trace frame (thunk chains are bounded by the frame limit)" replay=thunk_chain timeout=900
     #[kani::proof]
     #[kani::unwind(6)]
     fn do_thunk_arm_contract() {
@@ -178,6 +178,11 @@ mod vharness {
                     assert!(matches!(&e.state_stack[0], State::GotThunk(g) if std::ptr::eq(g.0, t.0)), "C04:evalcore:result-is-stored-back-into-this-thunk-after-the-computation");
                 }
                 assert!(e.stack_trace_len as i64 - len0 as i64 == weight(&e), "C10:evalcore:trace-length-tracks-pushed-trace-items");
+                // thunk chains (C10): forcing a thunk from within a thunk is a nesting level, so every
+                // DoThunk this arm schedules comes with one counted trace frame
+                let mut n_nested = 0i64; let mut i = 0;
+                while i < e.state_stack.len() { if matches!(e.state_stack[i], State::DoThunk(_)) { n_nested += 1; } i += 1; }
+                assert!(n_nested <= 1 && e.stack_trace_len as i64 - len0 as i64 == n_nested, "C10:evalcore:a-thunk-forced-from-within-a-thunk-is-a-counted-frame");
             }
         }
     }
